@@ -404,7 +404,10 @@ def run_harness(ctx, harness, mode, cases, timeout=1200, tag=""):
     inp = os.path.join(ctx.workdir, "in-%s%s.json" % (mode, tag))
     outp = os.path.join(ctx.workdir, "out-%s%s.json" % (mode, tag))
     json.dump(cases, open(inp, "w"))
-    rc, log = sh([harness, mode, inp, outp], timeout=timeout, env=GOENV)
+    try:
+        rc, log = sh([harness, mode, inp, outp], timeout=timeout, env=GOENV)
+    except subprocess.TimeoutExpired:
+        return None, "harness process (mode %s) did not finish within %d s: the code under test hangs" % (mode, timeout)
     if rc != 0 or not os.path.exists(outp):
         return None, log
     return json.load(open(outp)), log
